@@ -241,7 +241,7 @@ fn compile(module: &str, name: &str) -> Program {
     let src = format!("use.std::math::{module}\nbegin\n    exec.{module}::{name}\nend");
     assembler()
         .compile(&src)
-        .unwrap_or_else(|e| panic!("family program must assemble: {src}: {e}"))
+        .unwrap_or_else(|e| panic!("SUBJECT: family program must assemble: {src}: {e}"))
 }
 
 fn n_sentinels(n_ops: usize) -> usize {
@@ -358,7 +358,7 @@ fn judge(ctx: &Ctx, module: &str, name: &str, k: Kind, ops: &[u64], out: &Outcom
             fail("panic", Some(("panic", json!(guard::short_panic(p)))), guard::short_panic(p));
             "panic"
         }
-        (Outcome::AsmErr(e), _) => panic!("family program must assemble: {e}"),
+        (Outcome::AsmErr(e), _) => panic!("SUBJECT: family program must assemble: {e}"),
         (Outcome::Ok(s), Exp::Ok(r)) => {
             let want = expected_stack(ops, r);
             let s = strip_zeros(s);
